@@ -237,6 +237,63 @@ def cleanup_rule(chk):
              "(K1-cleanup, K1-status) and C18 (K1-funnel, K5-funnel) checks")
 
 
+def chase_rule(chk, prog):
+    """K1-chase: a loop that follows links between tree nodes named by the input (hard link -> target -> ...) ends on every
+    input: besides 'the chain ended' and 'back at the start' it has an exit that fires on any cycle -- a comparison of two
+    pointers that both advance (tortoise and hare) or a hop counter with a bound"""
+    n = 0
+    for f in prog.functions():
+        if f.decl or not f.unit.src.startswith("lib/fstree/"):
+            continue
+        f.build()
+        for (h, body) in f.loops:
+            phis = [i for i in h.insts if i.op == "phi" and i.ty.endswith("struct.tree_node_t*")]
+            follows = []
+            for p in phis:
+                for val, pred in zip(p.ops, p.x["inc"]):
+                    if pred not in body:
+                        continue
+                    for x in backward_slice(val, phi_control=False):
+                        if x.is_inst and x.op == "call" and norm_callee(x.callee) in ("fstree_get_node_by_path", "follow_link"):
+                            follows.append(p)
+                        elif x.is_inst and x.op == "load":
+                            g = strip_casts(x.ops[0])
+                            if g.is_inst and g.op == "getelementptr" and g.fields() and g.fields()[0][1] == "data" and \
+                                    x.ty.endswith("struct.tree_node_t*") and "hardlink" in f.unit.src:
+                                follows.append(p)
+            follows = list({id(p): p for p in follows}.values())
+            if not follows:
+                continue
+            n += 1
+            chk.analysed(f)
+            inst = "%s:loop@%d" % (f.name, h.term.line or 0)
+            ok = None
+            bodyvals = set()
+            for b in body:
+                for i in b.insts:
+                    bodyvals.add(id(i))
+            def varying(v):
+                v = strip_casts(v)
+                return v.is_inst and id(v) in bodyvals
+            for b in body:
+                t = b.term
+                if t.op == "br" and len(t.x["succ"]) == 2 and any(s_ not in body for s_ in t.x["succ"]) or t.op == "br" and len(t.x["succ"]) == 2:
+                    for x in backward_slice(t.ops[0], phi_control=False, limit=200):
+                        if x.is_inst and x.op == "icmp":
+                            a, b2 = x.ops
+                            if getattr(a, "ty", "").endswith("*") and varying(a) and varying(b2) and strip_casts(a) is not strip_casts(b2):
+                                ok = "two advancing pointers are compared (cycle detection)"
+                            if not getattr(a, "ty", "").endswith("*") and x.pred in ("ult", "ugt", "uge", "ule", "slt", "sgt") and \
+                                    any(varying(o) for o in x.ops) and any(i.op == "phi" and not i.ty.endswith("*") for i in h.insts):
+                                ok = ok or "a hop counter is compared with a bound"
+            if ok:
+                chk.ok("K1-chase", inst, h.term, ok)
+            else:
+                chk.violation("K1-chase", inst, h.term, "the loop follows links named by the input and stops only when the chain ends or "
+                              "returns to its starting node: a cycle that does not contain the start (b -> c, c -> b, a -> b) never ends")
+    return n
+
+
 def run(chk):
     chk.explanation = (
         "Static rules for the untrusted-input front ends: (a) every size decoded from the archive reaches "
@@ -246,7 +303,7 @@ def run(chk):
         "read_header is dominated by the magic/version test and a valid checksum; (d) K6 bounded sinks over all anchored "
         "parser units (split_line, get_line, base64/hex decode, canonicalize_name, libtar, fstree, xfrm streams, pack/"
         "sort/xattr file readers); (e) the codec wrappers re-enter their loop only on progress codes (K-codec, shared with C15); (f) the PAX 'already set' mask is zeroed whenever the decoded header is wiped. "
-        "Termination (e.g. hard-link cycles not containing the start node) is not decided.")
+        "(g) K8-dangling: a freed pointer is not left in caller-visible memory; (h) K1-progress: the archive member stream never reports success with zero bytes; (i) K1-chase: the hard-link resolution loop has a cycle exit. Termination in general is not decided.")
     chk.assumptions = ["cleanup after failure and name canonicalisation are decided by C13 and C18"]
     prog = load_program("all")
     files = anchored_files()
@@ -259,6 +316,7 @@ def run(chk):
     run_dangling(chk, prog, "K8-dangling",
                  lambda src: src.startswith(("lib/tar/", "lib/xfrm/", "lib/fstree/", "lib/util/", "bin/tar2sqfs/", "bin/gensquashfs/"))
                  and "/test/" not in src)
+    chase_rule(chk, prog)
     from ..progress import run_progress
     run_progress(chk, prog, "K1-progress", lambda src: src.startswith("lib/tar/"))
     from .c15 import codec_rule
@@ -271,4 +329,5 @@ def run(chk):
     chk.floor("K9-mask", 1)
     chk.floor("K8-dangling", 8)
     chk.floor("K1-progress", 1)
+    chk.floor("K1-chase", 1)
     chk.floor("K-codec", 4)
